@@ -18,7 +18,7 @@ RULE = ('Hypothesis draws (filter pair, J in 1..4, H,W incl. odd / non-multiple-
         'transforms; (e) levels 1..j of the J-level transform equal the j-level transform; (f) axis tables agree with '
         'positions computed from first principles. Non-trivial = non-default layout or a non-trivial mask. Distinct = '
         'configuration without seeds.')
-ASSUMPTIONS = ['CPU kernels are deterministic, so "only moved" relations are checked for bitwise equality',
+ASSUMPTIONS = ['CPU kernels are deterministic, so "only moved / unchanged" relations hold bitwise in practice; up to 64 ulp of the largest value is tolerated and counted (label ulp_diff_*), so that a legitimate re-ordering of floating-point operations between code paths is not an alarm',
                'reconstruction tolerance as C04']
 STRATA = {'thorough': 'all 132 (o_dim, ri_dim) integer pairs (30 layouts + negative aliases) x J in 1..3', 'quick': ''}
 LABEL_FLOORS = {'nondefault_layout': 0.5, 'some_skipped': 0.3, 'some_scales': 0.3}
@@ -99,13 +99,31 @@ def is_placeholder(t):
     return isinstance(t, torch.Tensor) and (t.dim() == 0 or t.numel() == 0)
 
 
+ULP_DIFFS = [0]
+
+
 def same(a, b):
-    return a.shape == b.shape and a.dtype == b.dtype and torch.equal(a, b)
+    """'Only moved / unchanged': bitwise in practice (identical arithmetic on both sides); a difference of a few
+    units in the last place - which a legitimate re-ordering of floating-point operations between two code paths
+    could cause - is counted, not failed. Real defects are >= 8 orders of magnitude above this."""
+    if a.shape != b.shape or a.dtype != b.dtype:
+        return False
+    if torch.equal(a, b):
+        return True
+    if a.numel() == 0 or not (bool(torch.isfinite(a).all()) and bool(torch.isfinite(b).all())):
+        return False
+    eps = core.EPS32 if a.dtype == torch.float32 else core.EPS64
+    scale = max(float(b.abs().max()), 1e-300)
+    if float((a - b).abs().max()) <= 64 * eps * scale:
+        ULP_DIFFS[0] += 1
+        return True
+    return False
 
 
 def run_case(case):
     from pytorch_wavelets import DTCWTForward, DTCWTInverse
     r = Result()
+    ULP_DIFFS[0] = 0
     b, q, J = case['biort'], case['qshift'], case['J']
     H, W = case['size']
     o, ri = case['o_dim'], case['ri_dim']
@@ -184,6 +202,8 @@ def run_case(case):
         for i in range(j):
             if not same(yhs[i], yh0[i]):
                 r.fail('prefix', 'level %d of the %d-level transform differs from the %d-level transform' % (i + 1, j, J))
+    if ULP_DIFFS[0]:
+        r.label('ulp_diff_forward')
     if r.failed:
         return r
     # (b) inverse accepts the layout
@@ -199,7 +219,7 @@ def run_case(case):
     if not torch.equal(got, want):
         d = float((got - want).abs().max())
         scale = max(float(want.abs().max()), 1e-300)
-        if d <= 4 * (core.EPS32 if f32 else core.EPS64) * scale:
+        if d <= 64 * (core.EPS32 if f32 else core.EPS64) * scale:
             r.label('ulp_diff_inverse')
         else:
             r.fail('inverse_layout_values:o%d_ri%d' % (o % 6, ri % 6),
